@@ -446,7 +446,9 @@ def counterexample(scratch, cfg_name, h, timeout=None):
         base += h.kani_args.split()
     out = {"playback_test": None, "native_replay": "not attempted", "inputs": None}
     try:
-        p = subprocess.run(base + ["--concrete-playback=inplace"], cwd=scratch, env=env, capture_output=True,
+        # `print`, not `inplace`: most harnesses are instantiated through macro_rules!, and Kani's in-place insertion puts the
+        # generated test into the macro body (one copy per instantiation => duplicate definitions, and no `Vec` in a no_std crate)
+        p = subprocess.run(base + ["--concrete-playback=print"], cwd=scratch, env=env, capture_output=True,
                            text=True, timeout=(timeout or h.timeout) + 600)
     except subprocess.TimeoutExpired:
         out["native_replay"] = "counterexample generation timed out"
@@ -455,20 +457,26 @@ def counterexample(scratch, cfg_name, h, timeout=None):
     # find failed checks text (regular output format)
     fails = re.findall(r"Failed Checks: (.*)\n\s*File: \"([^\"]*)\", line (\d+)", txt)
     out["failed_checks_text"] = ["%s (%s:%s)" % f for f in fails][:10]
-    # locate generated test
-    src = os.path.join(scratch, h.file)
     test_name = None
-    try:
-        with open(src) as f:
-            s = f.read()
-        m = re.search(r"#\[test\]\s*\n\s*fn (kani_concrete_playback_%s_[0-9a-f_]+)\(\) \{(.*?)\n\s*\}\n" % re.escape(h.name), s, re.S)
-        if m:
-            test_name = m.group(1)
-            out["playback_test"] = m.group(0)[:6000]
-            vals = re.findall(r"// (.+)\n\s*vec!\[([0-9, ]*)\]", m.group(2))
-            out["inputs"] = [{"value": v.strip(), "bytes": [int(x) for x in b.replace(" ", "").split(",") if x]} for v, b in vals][:200]
-    except Exception as e:  # pragma: no cover
-        out["native_replay"] = "could not read generated test: %s" % e
+    m = re.search(r"(#\[test\]\s*\n\s*fn (kani_concrete_playback_%s_[0-9a-f_]+)\(\) \{.*?\n\s*\})\s*\n\s*```" % re.escape(h.name), txt, re.S)
+    if m:
+        test_name = m.group(2)
+        out["playback_test"] = m.group(1)[:6000]
+        vals = re.findall(r"// (.+)\n\s*vec!\[([0-9, ]*)\]", m.group(1))
+        out["inputs"] = [{"value": v.strip(), "bytes": [int(x) for x in b.replace(" ", "").split(",") if x]} for v, b in vals][:200]
+        # append the test as a child module of the injected kani_verif module of the harness' file
+        src = os.path.join(scratch, h.file)
+        try:
+            with open(src) as f:
+                code = f.read()
+            k = code.rstrip().rfind("}")
+            code = (code[:k] + "\n    #[cfg(test)]\n    mod kani_playback_%s {\n        extern crate std;\n        use std::{vec, vec::Vec};\n        use super::*;\n        %s\n    }\n" % (h.name, m.group(1))
+                    + code[k:])
+            with open(src, "w") as f:
+                f.write(code)
+        except Exception as e:  # pragma: no cover
+            out["native_replay"] = "could not add the generated test: %s" % e
+            return out
     if not test_name:
         if "VERIFICATION:- SUCCESSFUL" in txt:
             out["native_replay"] = "failure did not reproduce in single-harness rerun"
